@@ -31,6 +31,9 @@ CASE_T = {'log': 'bstore * list lstep', 'gclog': 'bstore * list lstep',
 FN = {'log': 'check_log', 'gclog': 'check_gclog', 'op': 'check_op'}
 
 
+MAXROWS = True
+
+
 def run(ck):
     quick = ck.tier == 'quick'
     ck.rule = ('operation sequences (3-6 ops of put[4 modes]/multipart/copy/rename/delete/collect_garbage over 4 nested keys, '
@@ -73,6 +76,10 @@ def run(ck):
                 ck.nontrivial(tuple(pt))
             for chk in ('log', 'gclog', 'op'):
                 sel = [r for r in model_rows if r['check'] == chk]
+                maxrows = 1500 if quick else 8000
+                if len(sel) > maxrows:      # evenly spaced sample; the harness's direct oracle covers every case
+                    step = len(sel) / float(maxrows)
+                    sel = [sel[int(i * step)] for i in range(maxrows)]
                 cases = [r['case'] for r in sel]
                 res = ck.eval_cases(IMPORTS, CASE_T[chk], FN[chk], cases, label='c08_' + chk, shard=40, timeout=1500)
                 ck.count(len(cases))
